@@ -86,7 +86,13 @@ def parse_overlay(path):
                 it = None
                 for x in w[2:]:
                     if x.startswith("iter="): it = x[5:]
-                sec = ("loop", int(w[1]), it)
+                if w[1] == "over":
+                    # //@ loop over `EXPR` : the (R16-desugared) `for .. in EXPR` loop, whatever its position; `$IT` in the text is its iterator
+                    rest = ln[3:].split(None, 2)[2].strip()
+                    if not (rest.startswith("`") and rest.endswith("`")): raise ExtractError("overlay %s: bad loop marker %r" % (path, ln))
+                    sec = ("loop", "over:" + rest[1:-1], None)
+                else:
+                    sec = ("loop", int(w[1]), it)
             elif w[0] == "closure":
                 sec = ("closure", int(w[1]))
             elif w[0] == "closure_ghost":
@@ -346,6 +352,7 @@ def extract(unit, ex):
         frag = R.r1_await(frag, st, mark=bool(cfg.get("await_mark")))
         for a, b in cfg.get("pre_subst", []):
             frag = R.r8_subst(frag, st, [(a, b)], "R8p")
+        frag = R.r17_bool_compound_assign(frag, st)
         if cfg.get("outline"):
             frag = R.r14_outline(frag, st, cfg["outline"])
         if cfg.get("result_unfold"):
@@ -405,6 +412,20 @@ def splice_loops(frag, ov, info):
     ls = R.loops_in(frag, m, 0, len(frag))
     ins = []
     for k, (it, text) in ov["loops"].items():
+        if isinstance(k, str) and k.startswith("over:"):
+            want = [t.s for t in T(k[5:])]
+            hit = None
+            for li, (kw0, o0, c0) in enumerate(ls):
+                # ... let mut vx_itN = vx_into_iter ( EXPR ) ; loop {
+                j = kw0 - 1
+                if j < 2 or frag[j].s != ";" or frag[j - 1].s != ")": continue
+                op = m[j - 1]
+                if op < 4 or frag[op - 1].s != "vx_into_iter": continue
+                if [t.s for t in frag[op + 1:j - 1]] == want:
+                    hit = (li, frag[op - 3].s); break
+            if hit is None: raise ExtractError("item %s: no `for .. in %s` loop (anchor lost)" % (ov["id"], k[5:]))
+            k, itname = hit
+            text = text.replace("$IT", itname)
         if k >= len(ls): raise ExtractError("item %s: overlay names loop %d but the body has %d loops" % (ov["id"], k, len(ls)))
         kw, o, c = ls[k]
         # lines before the first `invariant`/`decreases` line are ghost statements placed in front of the loop
@@ -617,7 +638,7 @@ def build_unit(name, canary=None):
                     if t.startswith("ensures"): inens = True
                     elif t.startswith(("invariant", "decreases", "after:", "body_start:", "body_end:")): inens = False
                     if inens and "OBL:" in ln:
-                        raise ExtractError("item %s loop %d: tagged obligation inside the `ensures` of a non-isolated loop (unchecked by Verus): move it to an `after:` assert" % (iid, k))
+                        raise ExtractError("item %s loop %s: tagged obligation inside the `ensures` of a non-isolated loop (unchecked by Verus): move it to an `after:` assert" % (iid, k))
         frag = splice_closures(frag, ov, info)
         frag = splice_loops(frag, ov, info)
         frag = splice_hints(frag, ov, info)
